@@ -109,6 +109,10 @@ theorem setAllZ0_inv (c : Cfg V F) (s : VData V F) (z : V) (h : Inv c s) :
 theorem init_inv (c : Cfg V F) (s : VData V F) (t r k n : Int) (h : Inv c s) :
     Inv c (s.init c t r k n).1 ∧ ∀ w, (s.init c t r k n).2 ≠ .ub w := by
   unfold VData.init
+  split
+  · exact ⟨h, by intro w; simp⟩
+  split
+  · exact ⟨h, by intro w; simp⟩
   have h1 := resize_inv c s 0 0 0 0 h
   generalize s.resize c 0 0 0 0 = p1 at h1 ⊢
   obtain ⟨s1, r1⟩ := p1
